@@ -8,6 +8,7 @@ import (
 	"encoding/binary"
 	"fmt"
 	"math/rand"
+	"net"
 	"os"
 	"strings"
 	"time"
@@ -196,13 +197,16 @@ type ConnCfg struct {
 }
 
 type Step struct {
-	Kind  string // feed | evict | drop | advance | fault (applies to the next feed)
-	Fault *FaultSpec
-	Conn  string
-	Cmd   Command
-	Tier  string // evict/drop
-	Key   []byte
-	Secs  int64
+	Kind string // feed | evict | drop | advance | fault (applies to the next feed)
+	// Prompt: the command is sent WITHOUT the harness's trailing no-op first; whatever the server
+	// answers must arrive without further input (nothing may be held back until the next request)
+	Prompt bool
+	Fault  *FaultSpec
+	Conn   string
+	Cmd    Command
+	Tier   string // evict/drop
+	Key    []byte
+	Secs   int64
 }
 
 // FaultSpec is a backend fault planned for the next fed command.
@@ -313,6 +317,17 @@ func RunScenarioO(d *Driver, sc Scenario, timeout time.Duration, oracle bool) (r
 
 func runScenario(d *Driver, sc Scenario, timeout time.Duration, oracle bool, res *Outcome) (*Divergence, bool, []StepObs) {
 	crumb("scenario "+sc.ID, describeScenario(sc))
+	// a scenario in which nothing has a lifetime reads the same at every second: a clock tick
+	// during one of its steps does not taint it
+	clockFree := true
+	for _, s := range sc.Steps {
+		if s.Kind != "feed" && s.Kind != "evict" {
+			clockFree = false
+		}
+		if s.Kind == "feed" && (s.Cmd.Exptime != 0 || s.Cmd.Kind == "touch" || s.Cmd.Kind == "gat" || s.Cmd.Kind == "gete" || s.Cmd.Kind == "raw") {
+			clockFree = false
+		}
+	}
 	st := GetStack(sc.Stack)
 	st.Reset()
 	if sc.Stack.L1 == "inmem" {
@@ -371,7 +386,11 @@ func runScenario(d *Driver, sc Scenario, timeout time.Duration, oracle bool, res
 			if s.Tier == "L2" {
 				f = st.L2
 			}
-			f.Drop(string(s.Key))
+			if sc.Stack.L1 == "inmem" && s.Tier != "L2" {
+				dropInmem(string(s.Key))
+			} else {
+				f.Drop(string(s.Key))
+			}
 			d.Send(fmt.Sprintf("evict %s %s", s.Tier, hx(s.Key)), 0)
 			descs = append(descs, fmt.Sprintf("%s %s %s", s.Kind, s.Tier, s.Key))
 			obs = append(obs, StepObs{})
@@ -393,7 +412,21 @@ func runScenario(d *Driver, sc Scenario, timeout time.Duration, oracle bool, res
 		descs = append(descs, s.Conn+": "+s.Cmd.Describe())
 		now0 := st.L1.Now()
 		tFeed := time.Now()
-		out, ending := cl.Feed(data, timeout)
+		var out []byte
+		var ending string
+		if s.Prompt {
+			sent, sentReply := cl.Sentinel()
+			cl.c.Write(data)
+			before := readUntilIdle(cl.c, 300*time.Millisecond, timeout)
+			rest, e := cl.FeedRaw(sent, sentReply, timeout)
+			out, ending = append(before, rest...), e
+			if e == "eof" && len(rest) > len(sentReply) {
+				res.Probed = append(res.Probed, Violation{What: fmt.Sprintf("step %d (%s): %d bytes of the reply were held back until the next request arrived (they were not sent when the command had been answered)", i, s.Cmd.Describe(), len(rest)-len(sentReply)),
+					Signature: "reply-held-back:" + s.Cmd.Kind, Replay: map[string]interface{}{"step": i, "arrived_at_once": canonN(200, before), "arrived_with_the_next_request": canonN(200, rest)}})
+			}
+		} else {
+			out, ending = cl.Feed(data, timeout)
+		}
 		if os.Getenv("VERIF_DEBUG_TIMING") != "" {
 			fmt.Fprintf(os.Stderr, "%s step %d %s: %v (%s)\n", sc.ID, i, s.Cmd.Describe(), time.Since(tFeed), ending)
 		}
@@ -409,7 +442,7 @@ func runScenario(d *Driver, sc Scenario, timeout time.Duration, oracle bool, res
 			st.L1.Arm(nil)
 			st.L2.Arm(nil)
 		}
-		if now0 != now1 && ending != "hang" {
+		if now0 != now1 && ending != "hang" && !clockFree {
 			// (a client left waiting for the whole timeout is a finding, not a clock artefact)
 			return nil, true, obs
 		}
@@ -559,6 +592,23 @@ func abortedReadsPrefix(ending, impl, model string) bool {
 		}
 	}
 	return true
+}
+
+// readUntilIdle reads what arrives until nothing has arrived for `idle` (or `max` has passed).
+func readUntilIdle(c net.Conn, idle, max time.Duration) []byte {
+	var out []byte
+	buf := make([]byte, 65536)
+	end := time.Now().Add(max)
+	for time.Now().Before(end) {
+		c.SetReadDeadline(time.Now().Add(idle))
+		n, err := c.Read(buf)
+		out = append(out, buf[:n]...)
+		if err != nil {
+			break
+		}
+	}
+	c.SetReadDeadline(time.Time{})
+	return out
 }
 
 func sortStrings(xs []string) {
